@@ -134,13 +134,13 @@ func refineModel(o *Obligation, params []replayParam, isInt bool) (map[string]st
 				}
 			}
 		case kString:
-			if has(base) && strings.Contains(head, "(declare-fun str.len ") {
-				ln := fmt.Sprintf("(str.len %s)", base)
+			if has(base) && strings.Contains(head, "(declare-fun gostr.len ") {
+				ln := fmt.Sprintf("(gostr.len %s)", base)
 				extra = append(extra, fmt.Sprintf("(assert %s)", le(ln, num(maxReplayLen))))
 				gets = append(gets, ln)
-				if strings.Contains(head, "(declare-fun str.arr ") {
+				if strings.Contains(head, "(declare-fun gostr.arr ") {
 					for k := 0; k < maxReplayLen; k++ {
-						gets = append(gets, fmt.Sprintf("(select (str.arr %s) %s)", base, num(int64(k))))
+						gets = append(gets, fmt.Sprintf("(select (gostr.arr %s) %s)", base, num(int64(k))))
 					}
 				}
 			}
@@ -550,7 +550,7 @@ func tryReplay(eng *Engine, o *Obligation, dir, prop, repo string) *replayResult
 					val = ts + "(" + lit + ")"
 				}
 			case kString:
-				lit, _, ok := bytesLit(model, "(str.arr in."+p.name+")", "(str.len in."+p.name+")", isInt)
+				lit, _, ok := bytesLit(model, "(gostr.arr in."+p.name+")", "(gostr.len in."+p.name+")", isInt)
 				if !ok {
 					lit = "[]byte{}"
 				}
